@@ -340,8 +340,14 @@ def gen_sequence(rng, maxlen, file_backed=False):
     return ops
 
 
+def mktmp(prefix):
+    """scratch directory for SQLite files (a tmpfs when there is one: fsync on a disk dominates the run time)"""
+    shm = "/dev/shm"
+    return tempfile.mkdtemp(prefix=prefix, dir=shm if os.path.isdir(shm) and os.access(shm, os.W_OK) else None)
+
+
 def run_impl(ops, file_backed=False):
-    d = tempfile.mkdtemp(prefix="verif-c13-") if file_backed else None
+    d = mktmp("verif-c13-") if file_backed else None
     try:
         im = Impl(os.path.join(d, "j.db") if d else None)
         kinds = []
